@@ -337,7 +337,15 @@ class Structure(Filter[Iterable[Union[Sequence,Mapping]], Iterable[Any]]):
 
         for row in data:
 
-            row = list(row) if is_dense else dict(row.items())
+            if is_dense:
+                #a position names a value of the row as it was given so no value is removed before all are taken
+                row   = list(row)
+                taken = {i:row[i] for i in self._structure if isinstance(i,int)}
+                row   = [v for i,v in enumerate(row) if i not in taken and i-len(row) not in taken]
+                take  = taken.__getitem__
+            else:
+                row  = dict(row.items())
+                take = row.pop
 
             stack   = []
             working = []
@@ -356,7 +364,7 @@ class Structure(Filter[Iterable[Union[Sequence,Mapping]], Iterable[Any]]):
                 elif item == None:
                     working.append(row)
                 else:
-                    working.append(row.pop(item))
+                    working.append(take(item))
 
             yield working[0]
 
